@@ -24,6 +24,8 @@ import time
 from typing import Any
 
 os.environ.setdefault("BIOBALM_VERIF", "1")
+if os.environ.get("VERIF_REPO"):
+    sys.path.insert(0, os.environ["VERIF_REPO"])   # seeded-defect runs: import the library from a scratch worktree
 
 import biobalm  # noqa: E402
 import biobalm.succession_diagram as _sdmod  # noqa: E402
@@ -109,7 +111,80 @@ def _reduced_aseeds(*args, **kwargs):
     return res
 
 
+# ---- symbolic_attractor_test: one record per call, one entry per main-loop iteration (hooks) ----
+import biobalm._sd_attractors.attractor_symbolic as _symmod  # noqa: E402
+from biobalm import _verif_hooks  # noqa: E402
+
+_orig_attractor_test = _symmod.symbolic_attractor_test
+LOOPS: list[dict] = []
+_cur_loop: list[dict] = []
+
+
+def _full_states(sd, node_id, graph, cset) -> list[int]:
+    names = var_names(sd)
+    space = sd.node_data(node_id)["space"]
+    base = 0
+    for nm, v in space.items():
+        if v:
+            base |= 1 << names.index(nm)
+    out = []
+    if cset is None:
+        return out
+    for it in cset.vertices().items():
+        s = base
+        for k, v in it.to_dict().items():
+            if v:
+                s |= 1 << names.index(graph.get_network_variable_name(k))
+        out.append(s)
+    return sorted(out)
+
+
+def _loop_sink(event, f):
+    if not _cur_loop:
+        return
+    rec_ = _cur_loop[-1]
+    sd = rec_["_sd"]
+    if len(var_names(sd)) > 8:
+        return
+    graph = f["graph"]
+    names = var_names(sd)
+    if event == "attractor_test_iteration":
+        def idx(vs):
+            return sorted(names.index(graph.get_network_variable_name(v)) + 1 for v in vs)
+        rec_["its"].append({"reach": _full_states(sd, f["node_id"], graph, f["reach"]),
+                            "avoid": _full_states(sd, f["node_id"], graph, f["avoid"]),
+                            "noavoid": f["avoid"] is None,
+                            "sat": idx(f["saturated"]), "conf": idx(f["conflict"]), "other": idx(f["other"]),
+                            "force": bool(f["force_forward"])})
+    elif event == "attractor_test_done":
+        rec_["final"] = _full_states(sd, f["node_id"], graph, f["reach"])
+
+
+def _attractor_test(sd, node_id, graph, pivot, avoid_set):
+    names = var_names(sd)
+    small = len(names) <= 8
+    rec_ = {"_sd": sd, "node": node_id + 1, "space": vec(sd.node_data(node_id)["space"], names),
+            "pivot": 0, "avoid0": [], "its": [], "final": [], "result": "hang"}
+    if small:
+        full = dict(sd.node_data(node_id)["space"])
+        full.update(pivot)
+        rec_["pivot"] = sum((1 << names.index(nm)) for nm, v in full.items() if v)
+        rec_["avoid0"] = _full_states(sd, node_id, graph, avoid_set)
+    _cur_loop.append(rec_)
+    try:
+        r = _orig_attractor_test(sd, node_id, graph, pivot, avoid_set)
+        rec_["result"] = "hit" if r is None else "closure"
+        return r
+    finally:
+        _cur_loop.pop()
+        del rec_["_sd"]
+        if small and sd is CTX.active:
+            LOOPS.append(rec_)
+
+
 def install():
+    _symmod.symbolic_attractor_test = _attractor_test
+    _verif_hooks.set_sink(_loop_sink)
     SuccessionDiagram._expand_one_node = _expand_one_node
     _sdmod.trappist = _trappist
     _minmod.trappist = _trappist
@@ -118,6 +193,37 @@ def install():
 
 
 install()
+
+
+# ---- work measure: executed backward jumps (loop back-edges) inside biobalm code (sys.monitoring) ----
+class _Work:
+    def __init__(self):
+        self.count = 0
+        self.on = False
+        try:
+            mon = sys.monitoring
+            self.tool = mon.PROFILER_ID
+            mon.use_tool_id(self.tool, "verif-work")
+            root = os.path.dirname(biobalm.__file__)
+
+            def on_jump(code, src, dst):
+                if dst < src and code.co_filename.startswith(root):
+                    self.count += 1
+                elif not code.co_filename.startswith(root):
+                    return mon.DISABLE
+            mon.register_callback(self.tool, mon.events.JUMP, on_jump)
+            mon.set_events(self.tool, mon.events.JUMP)
+            self.on = True
+        except Exception:  # noqa: BLE001
+            self.on = False
+
+    def take(self) -> int:
+        c = self.count
+        self.count = 0
+        return c
+
+
+WORK = _Work()
 
 
 # ------------------------------------------------------------------------------------------------
@@ -202,7 +308,8 @@ def project(sd: SuccessionDiagram) -> dict:
 DEFAULT_EVENT = {"op": "", "n": 0, "lvl": -1, "size": -1, "stk": -1, "skip": False, "target": [],
                  "greedy": True, "sim": True, "fallback": False, "maa": True, "optsrc": True, "exact": False,
                  "ret": "none", "out": [], "raised": False, "exc": "", "xl": [], "mts": [], "orc": [],
-                 "fail_at": 0, "solver_calls": 0}
+                 "fail_at": 0, "solver_calls": 0, "loops": [], "work": 0, "ctl": [], "strategy": "internal", "bound": -1,
+                 "forbidden": [], "sonly": True}
 
 
 def lim(x):
@@ -222,8 +329,10 @@ def run_op(sd: SuccessionDiagram, op: dict, timeout_s: float = 20.0) -> tuple[Su
     n = ev["n"] - 1
     CTX.active = sd
     CTX.xl, CTX.mts, CTX.orc = [], [], []
+    LOOPS.clear()
     CTX.solver_calls = 0
     CTX.fail_at = ev["fail_at"] or None
+    WORK.take()
     if kind in ("min", "skipmin") and 0 <= n < len(sd):
         start_space = dict(sd.node_data(n)["space"])
     else:
@@ -288,11 +397,24 @@ def run_op(sd: SuccessionDiagram, op: dict, timeout_s: float = 20.0) -> tuple[Su
             for i in range(len(sd)):
                 sd.node_attractor_seeds(i, compute=True)
             ret = "ok"
+        elif kind == "control":
+            from biobalm.control import succession_control
+            r = succession_control(sd, _space_of(ev["target"], names), strategy=ev.get("strategy", "internal"),
+                                   max_drivers_per_succession_node=lim(ev.get("bound", -1)),
+                                   forbidden_drivers={names[i - 1] for i in ev.get("forbidden", [])} or None,
+                                   successful_only=ev.get("sonly", True))
+            ev["ctl"] = [{"succ": [vec(m, names) for m in iv.succession],
+                          "ctl": [[vec(d, names) for d in step] for step in iv.control], "ok": bool(iv.successful)} for iv in r]
+            ret = "ok"
+        elif kind == "allsets":
+            for i in range(len(sd)):
+                sd.node_attractor_sets(i, compute=True)
+            ret = "ok"
         elif kind == "expseeds":
             for i in list(sd.expanded_ids()):
                 sd.node_attractor_seeds(i, compute=True)
             ret = "ok"
-        elif kind == "new":
+        elif kind in ("new", "noop"):
             ret = "ok"
         else:
             raise ValueError(f"unknown op {kind}")
@@ -321,6 +443,8 @@ def run_op(sd: SuccessionDiagram, op: dict, timeout_s: float = 20.0) -> tuple[Su
     ev["orc"] = list(CTX.orc) if kind == "aseeds" else []
     if CTX.mts and kind in ("min", "aseeds", "skipmin", "skiprem"):
         ev["mts"] = [vec(start_space | x, names) for x in CTX.mts[0]]
+    ev["loops"] = list(LOOPS)
+    ev["work"] = WORK.take()
     ev["post"] = project(sd)
     CTX.active = None
     return sd, ev
@@ -333,10 +457,36 @@ def default_cfg() -> dict:
     return {"maxm": 100000, "candlim": 100000, "rsthr": 1000, "simbudget": 1000, "nfvsthr": 2000}
 
 
+def api_network(tt: list[list[int]], names: list[str]) -> BooleanNetwork:
+    """build the network through the AEON API, keeping the declaration order of `names`"""
+    import bn as _bn
+    n = len(tt)
+    net = BooleanNetwork(list(names))
+    for i in range(n):
+        for j in _bn.support(tt[i], n):
+            net.add_regulation(f"{names[j]} -? {names[i]}")
+    for i in range(n):
+        expr = _bn._minterm_dnf(tt[i], n, names)
+        net.set_update_function(names[i], expr)
+    return net
+
+
 def make_sd(tt: list[list[int]], cfg: dict | None = None, names: list[str] | None = None,
-            text: str | None = None, fmt: str = "bnet") -> SuccessionDiagram:
+            text: str | None = None, fmt: str = "bnet", api: bool = False) -> SuccessionDiagram:
     names = names or names_for(len(tt))
+    if api:
+        c0 = SuccessionDiagram.default_config()
+        cfg0 = cfg or default_cfg()
+        c0["max_motifs_per_node"] = cfg0["maxm"]
+        c0["attractor_candidates_limit"] = cfg0["candlim"]
+        c0["retained_set_optimization_threshold"] = cfg0["rsthr"]
+        c0["minimum_simulation_budget"] = cfg0["simbudget"]
+        c0["nfvs_size_threshold"] = cfg0["nfvsthr"]
+        return SuccessionDiagram(api_network(tt, names), c0)
     text = text if text is not None else render_bnet(tt, names)
+    if fmt != "bnet" and not text.lstrip().startswith(("<", "$", "#")) and "->" not in text and "-?" not in text:
+        net0 = BooleanNetwork.from_bnet(text)
+        text = net0.to_aeon() if fmt == "aeon" else net0.to_sbml()
     c = SuccessionDiagram.default_config()
     cfg = cfg or default_cfg()
     c["max_motifs_per_node"] = cfg["maxm"]
@@ -367,11 +517,11 @@ def tt_in_code_order(tt: list[list[int]], names: list[str], code_names: list[str
 
 
 def record_trace(tid: str, tt: list[list[int]], ops, cfg: dict | None = None, timeout_s: float = 20.0,
-                 names: list[str] | None = None, text: str | None = None) -> dict:
+                 names: list[str] | None = None, text: str | None = None, fmt: str = "bnet", api: bool = False) -> dict:
     """ops: list of op dicts, or a callable (sd, step) -> op dict | None"""
     cfg = cfg or default_cfg()
     names = names or names_for(len(tt))
-    sd = make_sd(tt, cfg, names, text)
+    sd = make_sd(tt, cfg, names, text, fmt, api)
     CTX.how[id(sd)] = {}
     code_names = var_names(sd)
     events = []
@@ -389,7 +539,7 @@ def record_trace(tid: str, tt: list[list[int]], ops, cfg: dict | None = None, ti
             op = ops[step]
         step += 1
         if op.get("n", 1) > len(sd):
-            continue
+            op = {"op": "noop"}      # keeps traces of the same schedule aligned
         sd, ev = run_op(sd, op, timeout_s)
         events.append(ev)
         if ev["exc"] == "Hang":
